@@ -168,11 +168,30 @@ where
     (start, *bits)
 }
 
+impl<B: Ord + Clone> HuffmanContainer<B> {
+    /// Refuses (panics on) symbols the code table cannot encode *before* anything is changed, so that a
+    /// refused push leaves the statistics and all previously pushed items intact.
+    fn check_symbols<'a>(&self, symbols: impl Iterator<Item = &'a B>)
+    where
+        B: 'a,
+    {
+        if let Ok((huffman, _, _)) = &self.inner {
+            for symbol in symbols {
+                assert!(
+                    huffman.can_encode(symbol),
+                    "symbol is not part of the code table and cannot be represented"
+                );
+            }
+        }
+    }
+}
+
 impl<B> Push<&[B]> for HuffmanContainer<B>
 where
     B: Ord + Clone + Sized + 'static,
 {
     fn push(&mut self, item: &[B]) -> (usize, usize) {
+        self.check_symbols(item.iter());
         for x in item.iter() {
             *self.stats.entry(x.clone()).or_insert(0) += 1;
         }
@@ -228,6 +247,10 @@ where
     B: Ord + Clone + Sized + 'static,
 {
     fn push(&mut self, item: Wrapped<'a, B>) -> (usize, usize) {
+        match item.decode() {
+            Ok(decoded) => self.check_symbols(decoded),
+            Err(symbols) => self.check_symbols(symbols.iter()),
+        }
         match item.decode() {
             Ok(decoded) => {
                 for x in decoded {
@@ -496,6 +519,11 @@ mod huffman {
         ///
         /// The last byte may only contain partial information, but it should be recorded as presented,
         /// as we haven't a way to distinguish (e.g. a `Result` return type).
+        /// Indicates whether `symbol` has a code.
+        pub fn can_encode(&self, symbol: &T) -> bool {
+            self.encode.contains_key(symbol)
+        }
+
         pub fn encode<'a, I>(
             &'a self,
             initially: (u8, usize),
